@@ -31,6 +31,8 @@ def units(tier):
     for name, sk in msgs.skeletons(tier):
         if "big" in sk and sk["big"][1] > 300:
             continue
+        if tier == "thorough" and ("rich" in sk or "wide" in sk):
+            continue  # contents do not interact with the encoding freedoms (C01 covers them)
         if tier == "quick" and ("rich" in sk or "wide" in sk or "big" in sk or name.endswith("40")):
             continue
         for v in VARIANTS:
@@ -198,7 +200,7 @@ def body(ctx, shape):
             for extra in (1, 3):
                 alt = encode(root, lambda n: {"extra": extra} if n is target else {})
                 decode_and_compare(ctx, alt, m, "single-node-long-form")
-        if shape["tier"] == "thorough" and len(nodes) <= 14:
+        if shape["tier"] == "thorough" and len(nodes) <= 12:
             for i, a in enumerate(nodes):
                 for b in nodes[i + 1 :]:
                     alt = encode(root, lambda n: {"extra": 1} if n is a else ({"extra": 4} if n is b else {}))
